@@ -19,7 +19,8 @@ Values == { <<"f",".","t","x","t">>,
             <<"d","a","t","a","/","r","e","s","u","l","t",".","t","x","t">>,
             <<"m","a","t","r","i","x">>,
             <<"v","1",".">>,
-            <<"/","a","b","s","/","t","e","x","t",".","t","x","t">> }
+            <<"/","a","b","s","/","t","e","x","t",".","t","x","t">>,
+            <<"d","/","m","y","t","x","t",".","t","x","t">> }
 
 RECURSIVE Cat(_)
 Cat(cs) == IF cs = <<>> THEN "" ELSE cs[1] \o Cat(Tail(cs))
@@ -40,7 +41,9 @@ Mods == { [kind |-> "basename", a |-> <<>>, b |-> <<>>], [kind |-> "dirname", a 
           [kind |-> "trim", a |-> <<".","t","x","t">>, b |-> <<>>], [kind |-> "trim", a |-> <<".","x",".","t","x","t">>, b |-> <<>>],
           [kind |-> "trim", a |-> <<"x">>, b |-> <<>>],
           [kind |-> "subst", a |-> <<"f">>, b |-> <<"g","g">>], [kind |-> "subst", a |-> <<"t","x","t">>, b |-> <<"c","s","v">>],
-          [kind |-> "subst", a |-> <<"d">>, b |-> <<>>] }
+          [kind |-> "subst", a |-> <<"d">>, b |-> <<>>],
+          \* the search string is a literal, not a pattern: a dot matches a dot only
+          [kind |-> "subst", a |-> <<".","t","x","t">>, b |-> <<>>], [kind |-> "subst", a |-> <<".">>, b |-> <<"_">>] }
 ModStr(m) == CASE m.kind = "basename" -> "basename" [] m.kind = "dirname" -> "dirname"
                [] m.kind = "trim" -> "%" \o Cat(m.a)
                [] m.kind = "subst" -> "s/" \o Cat(m.a) \o "/" \o Cat(m.b) \o "/"
@@ -51,8 +54,8 @@ ApplyAll(s, ms) == IF ms = <<>> THEN s ELSE ApplyAll(Apply1(s, ms[1]), Tail(ms))
 
 \* the domain in which the documentation says what happens
 InDomain1(s, m) == CASE m.kind = "dirname" -> HasSlash(s) /\ LastSlash(s) > 1
-                     [] m.kind = "trim" -> Len(s) > Len(m.a) /\ EndsWith(s, m.a)
-                     [] m.kind = "subst" -> Cardinality(Occs(s, m.a)) = 1
+                     [] m.kind = "trim" -> TRUE      \* a suffix that is not there (or is the whole value) leaves the value as it is
+                     [] m.kind = "subst" -> TRUE     \* the first occurrence is replaced, no occurrence: unchanged
                      [] OTHER -> TRUE
 RECURSIVE InDomain(_, _)
 InDomain(s, ms) == ms = <<>> \/ (InDomain1(s, ms[1]) /\ Apply1(s, ms[1]) # <<>> /\ InDomain(Apply1(s, ms[1]), Tail(ms)))
